@@ -19,6 +19,7 @@ import (
 	"sort"
 	"strings"
 	"sync"
+	"sync/atomic"
 	"time"
 
 	p9p "github.com/frobnitzem/go-p9p"
@@ -59,7 +60,7 @@ func (t tok) num() int64 {
 	if t.dir {
 		d = 1
 	}
-	return int64(t.fail + 4*d + 8*t.nq)
+	return int64(t.fail + 8*d + 16*t.nq)
 }
 
 type opT struct {
@@ -211,6 +212,9 @@ func (w *world) Auth(ctx context.Context, uname, aname string) (p9p.AuthFile, er
 func (w *world) Attach(ctx context.Context, uname, aname string, af p9p.AuthFile) (p9p.Dirent, error) {
 	defer w.section()()
 	t, _ := w.use(nil, "attach", -1)
+	if t.fail >= 2 { // no root entry, no error
+		return nil, nil
+	}
 	if t.fail != 0 {
 		return nil, fsErr(ctx)
 	}
@@ -287,6 +291,8 @@ func (h *hEnt) Create(ctx context.Context, name string, perm uint32, mode p9p.Fl
 		return nil, nil, nil
 	case 3:
 		return h.w.newHandle(t.dir), nil, nil
+	case 4: // no entry, but a File
+		return nil, &hFile{h}, nil
 	}
 	n := h.w.newHandle(t.dir)
 	h.w.release(h, "create") // Dirent contract: a successful Create consumes the parent's handle
@@ -369,6 +375,18 @@ func (d dummyEnt) Remove(ctx context.Context) error           { d.bad("remove");
 func (d dummyEnt) Clunk(ctx context.Context) error            { d.bad("clunk"); return errFS }
 func (d dummyEnt) WStat(ctx context.Context, x p9p.Dir) error { d.bad("wstat"); return errFS }
 func (d dummyEnt) Stat(ctx context.Context) (p9p.Dir, error)  { d.bad("stat"); return p9p.Dir{}, errFS }
+
+// hangWait: how long an operation may take before it counts as hung.  Generous - until the run
+// has already seen 25 hangs: the tree is then known to violate the property and the remaining
+// cases only need to finish (a lock leak would otherwise cost six seconds per sequence).
+var hangsSeen int64
+
+func hangWait() time.Duration {
+	if atomic.LoadInt64(&hangsSeen) >= 25 {
+		return 1500 * time.Millisecond
+	}
+	return time.Duration(*hangMs) * time.Millisecond
+}
 
 // ---------------------------------------------------------------- executing one operation
 
@@ -826,8 +844,9 @@ func (r *seqRun) step(o *opT) {
 	var out outcome
 	select {
 	case out = <-done:
-	case <-time.After(time.Duration(*hangMs) * time.Millisecond):
+	case <-time.After(hangWait()):
 		r.hung = true
+		atomic.AddInt64(&hangsSeen, 1)
 	}
 	r.record(o, out)
 }
@@ -929,10 +948,12 @@ func genTok(g *prng.R, kind string, nnames int) tok {
 	case x < 80:
 	case x < 91:
 		t.fail = 1
-	case x < 97:
+	case x < 96:
 		t.fail = 2
-	default:
+	case x < 98:
 		t.fail = 3
+	default:
+		t.fail = 4
 	}
 	switch kind {
 	case "attach":
@@ -1128,6 +1149,12 @@ func corpus() [][]*opT {
 			mk("walk", 0, NOFID, []string{"a"}, "", 0, f), mk("walk", 0, 0, nil, "", 0, f), mk("walk", 0, 2, []string{"a", "b"}, "", 0, f),
 			mk("walk", 2, 3, []string{"c"}, "", 0, f), mk("walk", 0, 3, []string{"a", ".."}, "", 0, f), mk("walk", 0, 3, []string{"..", "a"}, "", 0, tk(0, false, 0)),
 			mk("clunk", 1, 0, nil, "", 0, e), mk("walk", 0, 1, nil, "", 0, d), mk("remove", 1, 0, nil, "", 0, e), mk("attach", 1, NOFID, nil, "", 0, e), mk("attach", 1, NOFID, nil, "", 0, f)},
+		// nil results with a nil error, for every call that returns an entry or a file
+		{mk("attach", 0, NOFID, nil, "", 0, tk(2, true, 0)), mk("stat", 0, 0, nil, "", 0), mk("attach", 0, NOFID, nil, "", 0, d),
+			mk("walk", 0, 1, []string{"a"}, "", 0, tk(2, false, 1)), mk("walk", 0, 1, nil, "", 0, tk(2, true, 0)), mk("walk", 0, 1, nil, "", 0, d), mk("walk", 0, 2, nil, "", 0, d),
+			mk("create", 1, 0, nil, "n", 0, tk(2, false, 0)), mk("create", 1, 0, nil, "n", 0, tk(4, false, 0)), mk("create", 1, 0, nil, "n", 0, tk(4, true, 0)), mk("create", 1, 0, nil, "n", 0, tk(3, false, 0)),
+			mk("stat", 1, 0, nil, "", 0), mk("create", 1, 0, nil, "n", 0, d, n), mk("stat", 1, 0, nil, "", 0),
+			mk("walk", 0, 3, []string{"f"}, "", 0, f), mk("open", 3, 0, nil, "", 0, n), mk("open", 3, 0, nil, "", 0), mk("open", 2, 0, nil, "", 0, n), mk("open", 2, 0, nil, "", 0)},
 		// create: file, nil entry, nil File, in a non-directory, illegal name; read/write gates on every mode
 		{mk("attach", 0, NOFID, nil, "", 0, d), mk("walk", 0, 1, nil, "", 0, d), mk("walk", 0, 2, nil, "", 0, d), mk("walk", 0, 3, nil, "", 0, d),
 			mk("create", 0, 0, nil, "n", 1, f), mk("write", 0, 0, nil, "", 0), mk("read", 0, 0, nil, "", 0), mk("create", 0, 0, nil, "m", 0, f),
@@ -1243,7 +1270,7 @@ func runInflight(g *prng.R) *seqRun {
 	if o.kind != want {
 		o = &opT{kind: "stat", fid: r.pickFid(g, true, 100)}
 	}
-	hang := time.Duration(*hangMs) * time.Millisecond
+	hang := hangWait()
 	done := r.launch(o, true)
 	var out outcome
 	select {
@@ -1491,7 +1518,7 @@ func runStopWait(g *prng.R) *seqRun {
 	o1.extra = append([]tok{}, o2.toks[:]...)
 	// the k-th call of the pair takes token k: op1's held call is call 0, op2's Attach call 1
 	o1.toks[1], o1.toks[2], o1.extra = o2.toks[0], o2.toks[1], []tok{o2.toks[2]}
-	hang := time.Duration(*hangMs) * time.Millisecond
+	hang := hangWait()
 	done1 := r.launch(o1, true)
 	var out1, out2 outcome
 	select {
@@ -1598,7 +1625,7 @@ func runQueued(g *prng.R) *seqRun {
 	}
 	o2.fid = o1.fid
 	o1.extra = append([]tok{}, o2.toks[:]...)
-	hang := time.Duration(*hangMs) * time.Millisecond
+	hang := hangWait()
 	done1 := r.launch(o1, true)
 	var out1, out2 outcome
 	select {
@@ -1703,16 +1730,14 @@ func main() {
 	for i := range gens {
 		gens[i] = rng.Fork()
 	}
-	var pinned []*seqRun
-	for _, ops := range append(corpus(), grids()...) {
-		pinned = append(pinned, runFixed(ops))
-	}
+	fixed := append(corpus(), grids()...)
+	pinned := make([]*seqRun, len(fixed))
 	ninfl := r.N(300, 4000)
 	npair := r.N(250, 3000) // each of the two pair families
 	results := make([]*seqRun, nseq+ninfl+2*npair)
 	var wg sync.WaitGroup
-	next := make(chan int, nseq+ninfl+2*npair)
-	for i := 0; i < nseq+ninfl+2*npair; i++ {
+	next := make(chan int, len(fixed)+nseq+ninfl+2*npair)
+	for i := -len(fixed); i < nseq+ninfl+2*npair; i++ { // negative: the pinned sequences, first
 		next <- i
 	}
 	close(next)
@@ -1721,7 +1746,9 @@ func main() {
 		go func() {
 			defer wg.Done()
 			for i := range next {
-				if i < nseq {
+				if i < 0 {
+					pinned[len(fixed)+i] = runFixed(fixed[len(fixed)+i])
+				} else if i < nseq {
 					results[i] = runSeq(gens[i])
 				} else if i < nseq+ninfl {
 					results[i] = runInflight(gens[i])
